@@ -65,6 +65,7 @@ type qrCase struct {
 	Level   int
 	N       int    // content length in characters of the mode
 	Forced  int    // QR_VERSION hint, -1 = none
+	Spell   string `json:",omitempty"` // when set, the hint is the STRING fmt.Sprintf(Spell, Forced): "%d", "%02d", "%03d", "+%d"
 	Header  string // "" | "eci" | "eci-euro" | "gs1" | "eci+gs1"
 	Margin  int    // writer only; -1 = default
 	ModeS   string `json:",omitempty"`
@@ -73,7 +74,7 @@ type qrCase struct {
 }
 
 func (c qrCase) String() string {
-	return fmt.Sprintf("%s mode=%s level=%s n=%d forced=%d header=%q margin=%d", c.Kind, modes[c.Mode].name, levels[c.Level].name, c.N, c.Forced, c.Header, c.Margin)
+	return fmt.Sprintf("%s mode=%s level=%s n=%d forced=%d%s header=%q margin=%d", c.Kind, modes[c.Mode].name, levels[c.Level].name, c.N, c.Forced, map[bool]string{true: " as string " + c.Spell, false: ""}[c.Spell != ""], c.Header, c.Margin)
 }
 
 // refMinVersion: lowest version that holds n characters of mode m at level l with the given
@@ -144,6 +145,9 @@ func qrHints(c qrCase) map[gozxing.EncodeHintType]interface{} {
 	}
 	if c.Forced >= 0 {
 		h[gozxing.EncodeHintType_QR_VERSION] = c.Forced
+		if c.Spell != "" {
+			h[gozxing.EncodeHintType_QR_VERSION] = fmt.Sprintf(c.Spell, c.Forced)
+		}
 	}
 	return h
 }
@@ -331,6 +335,24 @@ func qrForced() {
 		}
 	}
 	runQRCases("QR forced version 0..41 x 4 modes x 4 levels x n in {1, cap(v)-1, cap(v), cap(v)+1, cap(v-2), cap(v-1), cap(v-1)+1, cap(v+1), cap(v+1)+1}", byCost(cases), 4)
+	// the hint as a STRING (the documented alternative), in every spelling of a decimal integer:
+	// plain, zero-padded to two and three digits, with a plus sign. "010" is ten, "08" is eight.
+	cases = nil
+	for v := 1; v <= 40; v++ {
+		for _, sp := range []string{"%d", "%02d", "%03d", "+%d"} {
+			for li := range []int{0, 3} {
+				cp := qr.Capacity(v, levels[li].ref, qr.Numeric)
+				cm := 0
+				if v > 1 {
+					cm = qr.Capacity(v-1, levels[li].ref, qr.Numeric)
+				}
+				for _, n := range []int{cm + 1, cp, cp + 1} {
+					cases = append(cases, qrCase{Kind: "forced", Mode: 0, Level: li, N: n, Forced: v, Margin: -1, Spell: sp})
+				}
+			}
+		}
+	}
+	runQRCases("QR forced version 1..40 given as a STRING {plain, zero-padded to 2 and 3 digits, with a plus sign} x levels {L, M} x n in {cap(v-1)+1, cap(v), cap(v)+1}, numeric", byCost(cases), 8)
 }
 
 // header variants: the library adds an ECI header (12 bits) in byte mode when a character set is
